@@ -11,10 +11,31 @@ import (
 	"os"
 
 	"github.com/allegro/bigcache/v3"
-	"github.com/ipfs/go-cid"
+	"github.com/rpcpool/yellowstone-faithful/compactindexsized"
 	hugecache "github.com/rpcpool/yellowstone-faithful/huge-cache"
 	"github.com/rpcpool/yellowstone-faithful/indexes"
 )
+
+// ---- cut: the hash index (property C04) is a recorder: Lookup returns what Insert stored.
+var c01Inserted []c01KV
+
+func c01Model_BuilderInsert(b *compactindexsized.Builder, key []byte, value []byte) error {
+	c01Inserted = append(c01Inserted, c01KV{append([]byte{}, key...), append([]byte{}, value...)})
+	return nil
+}
+
+func c01Model_DBLookup(db *compactindexsized.DB, key []byte) ([]byte, error) {
+	for _, kv := range c01Inserted {
+		if len(kv.key) == len(key) && bytes.Equal(kv.key, key) {
+			return append([]byte{}, kv.value...), nil
+		}
+	}
+	if compactindexsized.ErrNotFound == nil {
+		compactindexsized.ErrNotFound = errors.New("not found") // library global (package is not a source root)
+	}
+	return nil, compactindexsized.ErrNotFound
+}
+
 
 // ---- cut: bigcache is a map (never evicts; may also be switched off to model eviction).
 var (
